@@ -273,7 +273,9 @@ theorem spec_operandName : Spec t operandName := by
   refine spec_bind_currentStr (fun v => ?_) ?_
   · spec_steps [spec_varOperand]
   · intro st hst hty
-    simp [getSt_bind, hty]
+    have hn' : st.cur.ty ≠ TT.name := by
+      rcases hty with h | h <;> (rw [h]; decide)
+    simp [getSt_bind, hn']
     split <;> exact ⟨_, rfl⟩
 
 theorem spec_printfRest : Spec t printfRest := by
@@ -293,9 +295,11 @@ theorem spec_macroDefinition (name : String) (hn : nameLike name = true) :
   refine spec_bind_currentLiteral (fun v => ?_) ?_
   · spec_steps [spec_addMacro _ _ hn]
   · intro st hst hty
-    have hk := hst.toks st.cur (by simp [St.toks])
-    simp only [tokOk, hty] at hk
-    have hs : st.cur.str = st.cur.content := by simp [Tok.str, hty, TT.hasString]
+    have hk0 := hst.toks st.cur (by simp [St.toks])
+    have hk : nameLike st.cur.content = false := by
+      rcases hty with h | h <;> (simp only [tokOk, h] at hk0; simpa using hk0)
+    have hs : st.cur.str = st.cur.content := by
+      rcases hty with h | h <;> simp [Tok.str, h, TT.hasString]
     have hm : st.getMacro st.cur.str = none := by
       cases hg : st.getMacro st.cur.str with
       | none => rfl
@@ -307,8 +311,8 @@ theorem spec_macroDefinition (name : String) (hn : nameLike name = true) :
           split at hg
           · rename_i hkind
             have := hst.macros _ _ hl (by simpa using hkind)
-            rw [hs] at this
-            simp [this] at hk
+            rw [hs, hk] at this
+            cases this
           · cases hg
         · cases hg
     simp [bind_run, getSt, hm, tokenError, triggerError]
